@@ -704,6 +704,61 @@ def np_add_reduce(I, a, k):
     raise Unsupported('add.reduce of symbolic length (use Sum spec)')
 
 
+def _sel(vals, p):
+    """vals[p] for a symbolic int p in [0, len(vals))"""
+    allint = all(numkind(v) in ('int', 'bool') for v in vals)
+    ts = [zint(v) if allint else zreal(v) for v in vals]
+    t = ts[-1]
+    for j in range(len(ts) - 2, -1, -1):
+        t = z3.If(p == j, ts[j], t)
+    return SV(z3.simplify(t), 'int' if allint else 'real')
+
+
+def np_argsort(I, a, k):
+    """model: some permutation that sorts ascending (no promise about the order of ties: numpy's default kind
+    is not stable on every platform)"""
+    items = Mo.seq_items(I, a[0])
+    if items is None or any(numkind(v) is None for v in items):
+        raise Unsupported('argsort of a sequence of symbolic length')
+    n = len(items)
+    st = I.st
+    ps = [st.fresh('argsort', 'int') for _ in range(n)]
+    for p in ps:
+        st.assume(z3.And(p.t >= 0, p.t < n))
+    if n > 1:
+        st.assume(z3.Distinct(*[p.t for p in ps]))
+    for i in range(n - 1):
+        st.assume(zreal(_sel(items, ps[i].t)) <= zreal(_sel(items, ps[i + 1].t)))
+    st.trusted.add('numpy.argsort: returns a permutation that sorts ascending')
+    return st.alloc('clist', ps, nd=True)
+
+
+def np_take(I, a, k):
+    x, ind = a[0], a[1]
+    axis = a[2] if len(a) > 2 else k.get('axis')
+    items = Mo.seq_items(I, x)
+    idx = Mo.seq_items(I, ind)
+    if items is None or idx is None or axis not in (0, None):
+        raise Unsupported('numpy.take on symbolic shapes')
+    st = I.st
+    out = []
+    rows = [Mo.seq_items(I, r) if Mo.is_list(r) else None for r in items]
+    for p in idx:
+        if isinstance(p, int):
+            v = items[p]
+            out.append(Mo.snapshot_copy(I, v) if Mo.is_list(v) else v)
+            continue
+        if all(r is not None for r in rows) and rows:
+            m = len(rows[0])
+            out.append(st.alloc('clist', [_sel([r[c] for r in rows], zint(p)) for c in range(m)], nd=True))
+        elif all(r is None for r in rows):
+            out.append(_sel(items, zint(p)))
+        else:
+            raise Unsupported('numpy.take of mixed rows')
+    st.trusted.add('numpy.take(a, ind, 0): [a[i] for i in ind]')
+    return st.alloc('clist', out, nd=True)
+
+
 def np_transpose(I, x):
     items = I.st.heap[x]
     if x.kind == 'clist' and items and Mo.is_list(items[0]):
@@ -753,6 +808,8 @@ def lib_lookup(I, dotted):
         'numpy.max': Builtin('numpy.max', lambda I_, a, k: np_max(I_, a, k, True)),
         'numpy.min': Builtin('numpy.min', lambda I_, a, k: np_max(I_, a, k, False)),
         'numpy.ravel': Builtin('numpy.ravel', np_ravel),
+        'numpy.argsort': Builtin('numpy.argsort', np_argsort),
+        'numpy.take': Builtin('numpy.take', np_take),
         'numpy.seterr': Builtin('numpy.seterr', np_seterr),
         'numpy.isinf': Builtin('numpy.isinf', np_isinf),
         'numpy.log': Builtin('numpy.log', np_log),
